@@ -75,7 +75,8 @@ SPECS = [
     ("y ~ fn(x) + f", "a", "envA"),  # built through one caller-held Environment object with extra_namespace A ...
     ("y ~ fn(x) + f", "a", "envB"),  # ... and B
     ("y ~ center(x) + f:g:center(x)", "a"),
-    ("y ~ poly(d, 2) + x", "a"),  # degenerate training data for the transform (two distinct points, degree 2)  # full rank needs a helper term (g:center(x)) that holds a stateful transform
+    ("y ~ poly(d, 2) + x", "a"),
+    ("y ~ bs(x, knots=kn) + f", "a"),  # 'kn' is an array of the caller whose entries are not in increasing order  # degenerate training data for the transform (two distinct points, degree 2)  # full rank needs a helper term (g:center(x)) that holds a stateful transform
 ]
 
 
@@ -186,7 +187,7 @@ def make_ns():
     from formulae.environment import Environment
 
     ns = {"design_matrices": design_matrices, "model_description": model_description, "np": np, "scale_factor": 2.0, "x": "not a column", "enc": Treatment(),
-          "wv": np.array([2.0, 4.5, 1.0, 3.0, 8.0, 6.5, 7.0, 0.5, 5.5, 9.0, 2.5, 4.0]), "shared_env": Environment([{"np": np}])}
+          "wv": np.array([2.0, 4.5, 1.0, 3.0, 8.0, 6.5, 7.0, 0.5, 5.5, 9.0, 2.5, 4.0]), "shared_env": Environment([{"np": np}]), "kn": np.array([4.0, 1.5, 3.0])}
     exec(NS_SRC, ns)
     return ns
 
